@@ -789,6 +789,8 @@ class Eval:
             return ("bool", len(t[1]) > 0)
         if t[0] == "none":
             return T.FALSE
+        if t[0] == "call" and t[1] == "bool" and len(t[2]) == 1 and not t[3]:
+            return self.truth(t[2][0])          # the truth value of bool(x) is the truth value of x
         if t[0] in ("map", "concat", "flatmap") or (t[0] == "phi" and all(b_[0] in ("map", "concat", "flatmap", "seq") for b_ in (t[2], t[3]))):
             # a list is true when it is not empty: `if xs:` is `if len(xs) != 0:`
             return T.ige(simplify_call("len", None, (t,), ()), 1)
